@@ -338,20 +338,20 @@ noncomputable def permOf {N : ℕ} {p : List ℕ} (h : IsPerm N p) : Equiv.Perm 
     simp only at hab'
     exact Fin.ext ((h.2.2.getElem_inj_iff).mp hab'))
 
-theorem getElem?_permOf {N : ℕ} {p : List ℕ} (h : IsPerm N p) (k : Fin N) :
+theorem getElemOpt_permOf {N : ℕ} {p : List ℕ} (h : IsPerm N p) (k : Fin N) :
     p[k.val]? = some (permOf h k).val := by
   have hk : k.val < p.length := by rw [h.1]; exact k.2
   rw [List.getElem?_eq_getElem hk]
   rfl
 
-theorem getElem?_gatherT_fin {N : ℕ} {p : List ℕ} (h : IsPerm N p) {xs : List β} (hx : N ≤ xs.length)
+theorem getElemOpt_gatherT_fin {N : ℕ} {p : List ℕ} (h : IsPerm N p) {xs : List β} (hx : N ≤ xs.length)
     (k : Fin N) : (gatherT xs p)[k.val]? = xs[(permOf h k).val]? := by
-  rw [getElem?_gatherT (fun i hi => lt_of_lt_of_le (h.2.1 i hi) hx), getElem?_permOf h k]
+  rw [getElem?_gatherT (fun i hi => lt_of_lt_of_le (h.2.1 i hi) hx), getElemOpt_permOf h k]
   rfl
 
 theorem getD_gatherT {N : ℕ} {p : List ℕ} (h : IsPerm N p) {xs : List β} (hx : N ≤ xs.length)
     (k : Fin N) (dflt : β) : (gatherT xs p).getD k.val dflt = xs.getD (permOf h k).val dflt := by
-  rw [List.getD_eq_getElem?_getD, List.getD_eq_getElem?_getD, getElem?_gatherT_fin h hx]
+  rw [List.getD_eq_getElem?_getD, List.getD_eq_getElem?_getD, getElemOpt_gatherT_fin h hx]
 
 theorem length_gatherT_of_le {N : ℕ} {p : List ℕ} (h : IsPerm N p) {xs : List β} (hx : N ≤ xs.length) :
     (gatherT xs p).length = N := by
@@ -395,7 +395,7 @@ theorem gatherT_ofFn {N : ℕ} {p : List ℕ} (h : IsPerm N p) (f : Fin N → β
   apply List.ext_getElem?
   intro k
   by_cases hk : k < N
-  · have := getElem?_gatherT_fin h (xs := List.ofFn f) (by simp) ⟨k, hk⟩
+  · have := getElemOpt_gatherT_fin h (xs := List.ofFn f) (by simp) ⟨k, hk⟩
     simp only at this
     rw [this]
     simp [hk]
